@@ -10,25 +10,26 @@ from harness import c09env
 from harness.common import tok_str
 from vk.core import Case, Ctx
 
-GEN_MODULES: List[str] = ["C10Notify"]
+GEN_MODULES: List[str] = ["C10Notify", "C08Types"]
 MANIFEST = {
     "design_ref": "§5 C10",
     "text": ("Lean theorems over the executable NOTIFY model (header ladder taken from the table generated from handle_notify, "
              "SID lookup, changes dict, notify_changed_state_variables loop with the {ns}name fallback, upnp_value setter with "
-             "the coercer kinds generated from const.py): status_spec (400/412/200 for every header combination), type_table_pinned, "
+             "C08's coercePython / schema over the generated type table for all 26 data types): status_spec (400/412/200 for every "
+             "header combination), conversion_is_c08, no_exception_escapes, "
              "apply_complete / c10_step (for every handler state and every well-formed property set the per-variable judge "
              "C10.stepOk holds: named+valid -> stored and stamped, not convertible -> reads absent and listed, out of range / "
              "not allowed -> untouched, unknown skipped, exactly one callback listing exactly the replaced variables, other "
              "services untouched), isolation, c10_history (sequences).  The same C10.stepOk judges the real handler."),
     "note": ("Trusted: Lean kernel + standard axioms; the translators; XML text<->tree (DET.fromstring) is not modelled — the "
-             "harness renders the abstract property set in varying textual forms; data types restricted to the int / str / "
-             "boolean coercer kinds with integer ranges and allowed lists (floats, dates not modelled); voluptuous All/In/Range "
-             "semantics assumed; ASCII values; a repeated element assigns its last text; a property set mixing x and {ns}x for "
+             "harness renders the abstract property set in varying textual forms; conversion / validation are C08's model for all 26 "
+             "data types (floats through a declared oracle); voluptuous All/In/Range semantics as modelled in C08; ASCII values; a repeated element assigns its last text; a property set mixing x and {ns}x for "
              "one variable is compared but not judged."),
     "technique": "Lean 4 proof (per-variable characterisation of the NOTIFY loop) + generated ladder/type tables + model/implementation correspondence",
 }
-RULE = ("sequences of NOTIFY requests over 1..3 real services (variables of kinds ui2/i4 with/without range, boolean, string "
-        "with/without allowed list, names shared between services): headers present/absent/wrong NT, NTS, SID routed / foreign / "
+RULE = ("sequences of NOTIFY requests over 1..3 real services (variables of ALL 26 UPnP data types, with and without declared "
+        "ranges / allowed lists, names shared between services; accepted spellings incl. both offset signs, Z, space separator, "
+        "+-HHMM / +-HH:MM, near-misses and out-of-range values): headers present/absent/wrong NT, NTS, SID routed / foreign / "
         "unrouted / missing; property sets of 0..7 children over 1..3 e:property elements plus foreign elements, namespaced and "
         "unknown names, valid / unconvertible / out-of-range / not-allowed values, repeated elements; after each request the "
         "status, every variable's value and updated_at of every service and the callbacks are compared and judged. "
@@ -37,7 +38,7 @@ EXHAUSTIVE = {"quick": False, "thorough": False}
 ASSUMPTIONS = [
     "property-set text is well-formed XML (a malformed body raises ParseError out of handle_notify; not covered by the property)",
     "values and names are ASCII; names are NCNames without braces",
-    "variables of data types whose coercer is not modelled (dateTime, time) are only sent texts that coercer rejects",
+    "floats are not modelled: what float(text) gives is declared by the harness per text (as in C08)",
     "strict mode (UpnpFactory(non_strict=False)); on_event is set on every service",
 ]
 TRUSTED = ["C10: voluptuous All/In/Range and the python-type validators behave as modelled (isinstance, membership, inclusive range)"]
@@ -48,9 +49,15 @@ NT_OK, NTS_OK = "upnp:event", "upnp:propchange"
 
 async def _run(recipe, lines, tags):
     svc_vars = recipe["vars"]
-    rq, eh, svcs = await c09env.make_env(svc_vars)
-    c09env.install_clock()
+    lines.extend(c09env.fdecl_lines(svc_vars, texts_of(recipe)))
     lines.extend(c09env.decl_lines(svc_vars))
+    try:
+        rq, eh, svcs = await c09env.make_env(svc_vars)
+    except Exception as e:  # noqa: BLE001 - the factory rejects a declaration whose texts the type table accepts
+        lines.append("factoryfail " + c09env.exc_tok(e))
+        tags.add("factoryfail")
+        return False
+    c09env.install_clock()
     cb_log: List[List[List[str]]] = [[] for _ in svcs]
     for i, s in enumerate(svcs):
         s.on_event = (lambda i_: (lambda svc, vs: cb_log[i_].append([v.name for v in vs])))(i)
@@ -109,6 +116,16 @@ async def _run(recipe, lines, tags):
     return nontrivial
 
 
+def texts_of(recipe):
+    out = []
+    for op in recipe["ops"]:
+        if op[0] == "notify" and op[4] != "#":
+            for el in op[4]:
+                for ns, name, text in el["kids"]:
+                    out.append((name, text))
+    return out
+
+
 def run_recipe(ctx: Ctx, recipe: Dict[str, Any], cid: str) -> Case:
     lines: List[str] = []
     tags = set()
@@ -119,25 +136,43 @@ def run_recipe(ctx: Ctx, recipe: Dict[str, Any], cid: str) -> Case:
 # ---------------------------------------------------------------------------------------------
 # generators
 
+# every row of const.STATE_VARIABLE_TYPE_MAPPING, with and without declared ranges / allowed lists
 VAR_KINDS = [
-    {"type": "ui2", "min": 0, "max": 100},
-    {"type": "i4"},
-    {"type": "i4", "min": -5},
-    {"type": "ui4", "max": 7},
-    {"type": "boolean"},
-    {"type": "string"},
-    {"type": "string", "allowed": ["x", "y", "On"]},
     {"type": "ui1", "min": 1, "max": 3, "allowed": ["1", "2", "9"]},
-    {"type": "dateTime"},   # coercer not modelled: only texts it rejects are sent (F10a: short malformed values)
-    {"type": "time"},
+    {"type": "ui2", "min": 0, "max": 100}, {"type": "ui4", "max": 7}, {"type": "ui8"},
+    {"type": "i1"}, {"type": "i2", "min": -5}, {"type": "i4"}, {"type": "i8", "allowed": ["-1", "0", "1"]}, {"type": "int"},
+    {"type": "r4"}, {"type": "r8", "min": "0.5", "max": "10"}, {"type": "number", "allowed": ["1.5", "2"]},
+    {"type": "fixed.14.4", "max": "1e3"}, {"type": "float"},
+    {"type": "char"}, {"type": "string"}, {"type": "string", "allowed": ["x", "y", "On"]},
+    {"type": "boolean"}, {"type": "bin.base64"}, {"type": "bin.hex"}, {"type": "uri", "allowed": ["http://a/", "x"]}, {"type": "uuid"},
+    {"type": "date"}, {"type": "date", "min": "2000-01-01", "max": "2030-12-31"},
+    {"type": "dateTime"}, {"type": "dateTime", "min": "2000-01-01T00:00:00", "max": "2030-01-01T00:00:00"},
+    {"type": "dateTime.tz"}, {"type": "dateTime.tz", "min": "2000-01-01T00:00:00+00:00"},
+    {"type": "time"}, {"type": "time", "max": "12:00:00"}, {"type": "time.tz"}, {"type": "time.tz", "allowed": ["05:06:07-05:00", "05:06:07Z"][:1]},
 ]
-DATE_BAD = ["", "abc", "12:00", "x", "2020-01", "T", "yesterday", "12"]
 NAMES = ["A", "B", "Vol", "Mute", "x1"]
-INT_TEXTS = ["5", "0", "100", "101", "-1", "-5", "-6", "7", "8", " 42 ", "+3", "1_0", "70000", "2", "9",
+INT_TEXTS = ["5", "0", "100", "101", "-1", "-5", "-6", "7", "8", " 42 ", "+3", "1_0", "70000", "2", "9", "1",
              "abc", "", "1.5", "0x10", "5 5", "--1", "_1", "1_", "\t3\n"]
+FLOAT_TEXTS = ["1.5", "2", "0.5", "10", "10.5", "-0.0", "1e3", "1e4", " 2.5 ", "inf", "-inf", "nan", ".5", "5.", "1_0.5",
+               "abc", "", "1,5", "0x1p3", "1.5.2", "--1"]
 BOOL_TEXTS = ["1", "0", "true", "TRUE", "Yes", "no", "false", "maybe", "", " 1"]
-STR_TEXTS = ["x", "y", "On", "on", "z", "", "hello world", "<&>", " x", "X"]
+STR_TEXTS = ["x", "y", "On", "on", "z", "", "hello world", "<&>", " x", "X", "http://a/"]
+DATE_TEXTS = ["2021-03-04", "2000-01-01", "1999-12-31", "2031-01-01", "2020-02-29", "2021-02-29", "2021-13-01", "0000-01-01",
+              "2021-3-4", "20210304", "2021-03-04T05:06:07", "2021-03-04 ", "", "abc"]
+DT_TEXTS = ["2021-03-04T05:06:07", "2021-03-04 05:06:07", "2021-03-04T05:06:07Z", "2021-03-04T05:06:07z",
+            "2021-03-04T05:06:07+0100", "2021-03-04T05:06:07-0500", "2021-03-04T05:06:07+01:00", "2021-03-04T05:06:07-05:00",
+            "2021-03-04T05:06:07 +0100", "2021-03-04T05:06:07 -05:00", "1999-01-01T00:00:00-05:00", "2035-01-01T00:00:00+0000",
+            "1999-12-31T23:59:59", "2030-01-01T00:00:00", "2021-03-04T05:06:07+23:59", "2021-03-04T05:06:07-00:00",
+            # near misses
+            "2021-03-04T05:06", "2021-03-04T25:06:07", "2021-03-04T05:06:60", "2021-03-04T05:06:07+1:00", "2021-03-04T05:06:07-05:0",
+            "2021-03-04T05:06:07+24:00", "2021-03-04T05:06:07+0160", "2021-03-04t05:06:07", "2021-03-04T05:06:07  +0100",
+            "2021-03-04", "05:06:07", "", "abc", "12:00", "2021-02-30T00:00:00"]
+TIME_TEXTS = ["05:06:07", "00:00:00", "12:00:00", "12:00:01", "23:59:59", "05:06:07+0100", "05:06:07-0500", "05:06:07+01:00",
+              "05:06:07-05:00", "05:06:07 +0100", "05:06:07 -05:00",
+              "24:00:00", "5:06:07", "05:06", "05:06:07Z", "05:06:07+1:00", "05:06:60", "", "abc", "12:00", "2021-03-04T05:06:07"]
 NSS = ["", "", "", "urn:q", c09env.EVENT_NS, "urn:schemas-upnp-org:metadata-1-0/AVT/"]
+INT_TYPES = {"ui1", "ui2", "ui4", "ui8", "i1", "i2", "i4", "i8", "int"}
+STR_TYPES = {"char", "string", "bin.base64", "bin.hex", "uri", "uuid"}
 
 
 def rand_vars(rng, nsvc):
@@ -153,10 +188,16 @@ def text_for(rng, decl):
     t = decl["type"]
     if t == "boolean":
         return rng.choice(BOOL_TEXTS)
-    if t == "string":
+    if t in STR_TYPES:
         return rng.choice(STR_TEXTS)
-    if t in ("dateTime", "time"):
-        return rng.choice(DATE_BAD)
+    if t in c09env.FLOAT_TYPES:
+        return rng.choice(FLOAT_TEXTS)
+    if t == "date":
+        return rng.choice(DATE_TEXTS)
+    if t in ("dateTime", "dateTime.tz"):
+        return rng.choice(DT_TEXTS)
+    if t in ("time", "time.tz"):
+        return rng.choice(TIME_TEXTS)
     return rng.choice(INT_TEXTS)
 
 
@@ -228,7 +269,8 @@ def rand_recipe(rng, n_notifies):
 
 
 V2 = [[{"name": "A", "type": "ui2", "min": 0, "max": 100}, {"name": "B", "type": "string", "allowed": ["x", "y"]},
-       {"name": "C", "type": "boolean"}, {"name": "D", "type": "i4"}, {"name": "T", "type": "dateTime"}],
+       {"name": "C", "type": "boolean"}, {"name": "D", "type": "i4"}, {"name": "T", "type": "dateTime"},
+       {"name": "Z", "type": "dateTime.tz"}, {"name": "W", "type": "time.tz"}, {"name": "F", "type": "r8", "min": "0.5", "max": "10"}],
       [{"name": "A", "type": "i4"}, {"name": "E", "type": "string"}]]
 
 
@@ -251,6 +293,13 @@ CORPUS = [
     # F10a: a short malformed dateTime used to raise IndexError out of handle_notify, losing the other properties
     {"vars": V2, "ops": [["route", "uuid:s0", 0], ["notify", NT_OK, NTS_OK, "uuid:s0", [P(("", "T", "abc"), ("", "A", "9"))], ""],
                          ["notify", NT_OK, NTS_OK, "uuid:s0", [P(("", "A", "10"), ("", "T", ""), ("", "C", "1"))], ""]]},
+    # round 2: negative colon offsets on dateTime / dateTime.tz / time.tz (a regression here used to be invisible), floats
+    {"vars": V2, "ops": [["route", "uuid:s0", 0],
+                         ["notify", NT_OK, NTS_OK, "uuid:s0", [P(("", "T", "2021-03-04T05:06:07-05:00"), ("", "Z", "2021-03-04T05:06:07-05:00"),
+                                                                ("", "W", "05:06:07-05:00"), ("", "F", "2.5"))], ""],
+                         ["notify", NT_OK, NTS_OK, "uuid:s0", [P(("", "T", "2021-03-04T05:06:07+01:00"), ("", "Z", "2021-03-04T05:06:07"),
+                                                                ("", "W", "05:06:07 -0500"), ("", "F", "11"))], ""],
+                         ["notify", NT_OK, NTS_OK, "uuid:s0", [P(("", "Z", "2021-03-04T05:06:07Z"), ("", "W", "05:06:07"), ("", "F", "nan"))], ""]]},
     # foreign SID: the other service's variables with the same name stay untouched
     {"vars": V2, "ops": [["route", "uuid:s0", 0], ["route", "uuid:s1", 1], ["notify", NT_OK, NTS_OK, "uuid:s1", [P(("", "A", "-7"), ("", "E", "t"))], ""],
                          ["notify", NT_OK, NTS_OK, "uuid:s0", [P(("", "A", "7")), {"p": False, "kids": [["", "B", "y"]]}], ""]]},
